@@ -210,10 +210,10 @@ impl PlainDateTime {
         }
 
         // 5. Let destEpochNs be GetUTCEpochNanoseconds(isoDateTime2).
-        let dest_epoch_ns = other.iso.as_nanoseconds()?;
+        let dest_epoch_ns = other.iso.utc_epoch_nanoseconds();
         // 6. Return ? RoundRelativeDuration(diff, destEpochNs, isoDateTime1, unset, calendar, largestUnit, roundingIncrement, smallestUnit, roundingMode).
         diff.round_relative_duration(
-            dest_epoch_ns.0,
+            dest_epoch_ns,
             self,
             Option::<(&TimeZone, &NeverProvider)>::None,
             options,
@@ -238,10 +238,10 @@ impl PlainDateTime {
             return FiniteF64::try_from(diff.normalized_time_duration().0);
         }
         // 5. Let destEpochNs be GetUTCEpochNanoseconds(isoDateTime2).
-        let dest_epoch_ns = other.iso.as_nanoseconds()?;
+        let dest_epoch_ns = other.iso.utc_epoch_nanoseconds();
         // 6. Return ? TotalRelativeDuration(diff, destEpochNs, isoDateTime1, unset, calendar, unit).
         diff.total_relative_duration(
-            dest_epoch_ns.0,
+            dest_epoch_ns,
             self,
             Option::<(&TimeZone, &NeverProvider)>::None,
             unit,
